@@ -96,6 +96,34 @@ void gen_summ(splitmix &r, unsigned n)
   }
 }
 
+void gen_cache(splitmix &r, unsigned n)
+{
+  for (unsigned k(0); k < n; ++k)
+  {
+    cache_case x(make_cache(r));
+    for (auto j(r.below(8)); j; --j)       // keys never inserted (the empty signature is not a key)
+    {
+      const hash_t h(make_hash(r));
+      if (!h.empty()) x.keys.push_back(h);
+    }
+    const std::string tags("bits=" + u(x.bits) + ",clears=" + u(x.clears) + ",stale=" + u(x.stale));
+    pre("cache", k, tags);
+    bool sok(false);
+    const std::string bytes(save_bytes(*x.c, &sok));
+    std::string verdict("ok");
+    if (!sok) verdict = "bad:save-returned-false";
+    else
+    {
+      cache y(x.bits);
+      std::istringstream in(bytes);
+      if (!y.load(in)) verdict = "bad:load-failed";
+      else if (lookups(y, x.keys) != lookups(*x.c, x.keys)) verdict = "bad:reloaded-object-differs";
+      else if (save_bytes(y) != bytes) verdict = "bad:resave-differs";
+    }
+    emit("cache", enc_cache(*x.c, x.bits), bytes, verdict, tags);
+  }
+}
+
 template<class W> void gen_big(std::uint64_t seed, unsigned n, W want)
 {
   const auto rs([&](unsigned k) { return splitmix(seed * 1000003ull + k); });
@@ -103,6 +131,7 @@ template<class W> void gen_big(std::uint64_t seed, unsigned n, W want)
   { auto r(rs(12)); if (want("team")) gen_team(r, n); }
   { auto r(rs(13)); if (want("pop")) gen_pop(r, n); }
   { auto r(rs(14)); if (want("summ")) gen_summ(r, n); }
+  { auto r(rs(15)); if (want("cache")) gen_cache(r, n); }
 }
 
 }  // namespace
